@@ -16,6 +16,9 @@ RULE = ('(A) token level: every token sequence of length <= 4 over a 13-symbol a
         'operators and every unary placement over several operand triples, plus zeros of every provenance (literals, '
         'zero variables, unary minus on each, negated zero subexpressions, stored negated zeros, products with zero, '
         'underflows, CVS/CVD exponent-0 patterns) under every relational/binary/unary operator and SGN ABS INT FIX CINT, '
+        'every number-token class as a leaf (one-byte constants, byte/int tokens, &H/&O, single/double suffix and '
+        'exponent forms) and line-number tokens (figures after ERL, ERL set by earlier errors, ON ERROR handlers '
+        'dispatching on ERL in programs with line numbers above 32767), '
         'evaluated in one long-lived Session '
         'through parse_expression, Session.evaluate, PRINT and stored program lines; one case = one expression '
         'text or token sequence; non-trivial = contains at least one operator')
@@ -31,7 +34,9 @@ TRUSTED_BASE = ['model PcbV.Model.Expr is a hand transcription of ExpressionPars
                 'operator tables regenerated from operators.py by gen/tables_c18.py']
 ASSUMPTIONS = ['unary + and - applied to a string pass it through unchanged (the statement is silent; coded on purpose)',
                'oracle cases are chosen so that every intermediate result is exactly representable (dyadic '
-               'rationals, <= 24 significant bits unless all-double) and never a division by zero; cases where a '
+               'rationals, <= 24 significant bits unless all-double; sums and differences only where aligning the '
+               'operands loses no bits, since C04 allows + and - two units in the last place otherwise: 2^24-1 is '
+               '16777216 in single precision) and never a division by zero; cases where a '
                'type mismatch and an overflow compete inside one operation are skipped',
                'operands of \\ MOD AND OR XOR EQV IMP NOT are rounded to 16-bit integers, out of range = Overflow']
 
@@ -403,6 +408,19 @@ def sig_bits(x):
     return n.bit_length()
 
 
+def aligned(x, y, ty):
+    """the smaller of two addends is a multiple of the unit in the last place of the larger one"""
+    if x == 0 or y == 0:
+        return True
+    big, small = (x, y) if abs(x) >= abs(y) else (y, x)
+    big = abs(big)
+    e = big.numerator.bit_length() - big.denominator.bit_length()
+    if Fraction(2) ** e > big:
+        e -= 1
+    ulp = Fraction(2) ** (e - ((56 if ty == 'D' else 24) - 1))
+    return (small / ulp).denominator == 1
+
+
 def check_exact(x, ty):
     bits = sig_bits(x)
     if ty == 'D':
@@ -499,6 +517,10 @@ def apply_binary(sym, a, b, dm):
         if tyc == 'I':
             dev.add('S5')
         tyc = at_least_single(tyc)
+        if sym != '*' and not aligned(a.v, b.v, tyc):
+            # + and - are only exact where aligning the operands loses no bits of the smaller one
+            # (elsewhere C04 allows them two units in the last place: 2^24 - 1 is 16777216 in single precision)
+            raise Skip('unaligned sum')
         v = {'+': a.v + b.v, '-': a.v - b.v, '*': a.v * b.v}[sym]
     elif sym == '/':
         ty, tyc = at_least_single(ty), at_least_single(tyc)
@@ -598,9 +620,32 @@ LITS = [('I', 0), ('I', 1), ('I', 2), ('I', 3), ('I', 4), ('I', 5), ('I', 8), ('
         ('D', 2 ** 40 + 1), ('T', b'ab'), ('T', b'b'), ('T', b''), ('T', b'abd')]
 
 
+# every class of number token the tokeniser produces from program text: (text, type, value)
+NUMTOKS = [(str(i), 'I', i) for i in range(11)] + [                               # one-byte constants 0..10
+    ('11', 'I', 11), ('100', 'I', 100), ('255', 'I', 255),                         # T_BYTE
+    ('256', 'I', 256), ('1000', 'I', 1000), ('32767', 'I', 32767), ('5%', 'I', 5), ('300%', 'I', 300),   # T_INT
+    ('&H0', 'I', 0), ('&H10', 'I', 16), ('&H7FFF', 'I', 32767), ('&H8000', 'I', -32768), ('&HFFFF', 'I', -1),
+    ('&O17', 'I', 15), ('&17', 'I', 15), ('&O177777', 'I', -1), ('&O100000', 'I', -32768),              # T_HEX T_OCT
+    ('.5', 'S', Fraction(1, 2)), ('2.5', 'S', Fraction(5, 2)), ('3!', 'S', 3), ('1.5!', 'S', Fraction(3, 2)),
+    ('1E3', 'S', 1000), ('1.25E2', 'S', 125), ('5E-1', 'S', Fraction(1, 2)), ('1.5E+1', 'S', 15),
+    ('32768', 'S', 32768), ('40000', 'S', 40000), ('65529', 'S', 65529), ('65536', 'S', 65536),
+    ('9999999', 'S', 9999999), ('16777215', 'D', 16777215),                                             # T_SINGLE
+    ('1D3', 'D', 1000), ('25D-2', 'D', Fraction(1, 4)), ('1.5D+1', 'D', 15), ('3#', 'D', 3), ('.5#', 'D', Fraction(1, 2)),
+    ('1.5#', 'D', Fraction(3, 2)), ('16777217', 'D', 16777217), ('123456789', 'D', 123456789)]          # T_DOUBLE
+# figures that the tokeniser stores as LINE NUMBERS (token 0E, unsigned) when they follow ERL
+LINENUMS = [0, 1, 10, 255, 256, 32767, 32768, 40000, 65529]
+
+
+def numtok_leaf(entry):
+    text, ty, v = entry
+    return ('val', V(ty, Fraction(v)), text)
+
+
 def leaf_token(rng, want):
     """('val', V, text)"""
     while True:
+        if want != 'str' and rng.random() < 0.12:
+            return numtok_leaf(rng.choice(NUMTOKS))
         if rng.random() < 0.4:
             name, ty, v = rng.choice(VARS)
             text = name
@@ -715,8 +760,20 @@ class RealEval(object):
         for name in sorted(INIT):
             self.session.execute(('%s=%s' % (name, INIT[name])).encode())
         # array elements: a plain zero and a negated one
-        self.session.execute(b'ERASE ZA')
+        # (set_vars is only called on cleared memory: at start, after NEW, after RUN - no error may happen
+        # here, it would move ERL)
         self.session.execute(b'DIM ZA(2):ZA(1)=-ZA(0)')
+
+    def set_erl(self, line):
+        """history that leaves ERL = line: 0 after NEW, 65535 after an error in direct mode, else the line
+        of a stored program on which an error occurred"""
+        self.session.execute(b'NEW')
+        if line == 65535:
+            self.session.execute(b'ERROR 5')
+        elif line:
+            self.session.execute(b'%d ERROR 5' % line)
+            self.session.execute(b'RUN')
+        self.set_vars()
 
     def printed(self, text, program):
         """bytes written by PRINT <text>, in direct mode or as a stored program (literals then live in code space);
@@ -745,7 +802,7 @@ class RealEval(object):
 ERRMSG = {13: b'Type mismatch', 6: b'Overflow', 22: b'Missing operand', 2: b'Syntax error'}
 
 
-def check_value_case(ctx, real, toks, text, label, model_req=None, deep=False, value_only=False):
+def check_value_case(ctx, real, toks, text, label, model_req=None, deep=False, value_only=False, extra=None):
     """one expression: oracle vs parse_expression, Session.evaluate and (deep) PRINT"""
     try:
         exp = pc_eval([t if t in ('(', ')') else (t[0], t[1]) for t in toks], real.dm)
@@ -761,6 +818,8 @@ def check_value_case(ctx, real, toks, text, label, model_req=None, deep=False, v
     case = {'part': 'B', 'text': text, 'dm': real.dm, 'tokens': [t if t in ('(', ')') else
             ([t[0], t[1].ty, t[1].v.decode('latin-1') if t[1].ty == 'T' else str(t[1].v)] if t[0] == 'val'
              else list(t)) for t in toks], 'deep': deep}
+    if extra:
+        case.update(extra)
     opkey = ' '.join(t[1] for t in toks if t not in ('(', ')') and t[0] == 'op')[:40]
     if got[0] == 'exc':
         ctx.fail('host-exception:%s:%s' % (got[1], opkey), case, '%s: Python %s escaped from parse_expression'
@@ -837,6 +896,8 @@ def part_b(ctx):
 
     # 0. zeros of every provenance under every operator: a zero is a zero, whatever its encoding
     part_b_zeros(ctx, reals)
+    # 0b. every class of number token as a leaf, incl. line-number tokens after ERL
+    part_b_numtokens(ctx, reals)
     # 1. every ordered pair of binary operators and every unary placement, several operand triples
     triples = []
     for _ in range(4 if ctx.quick else 12):
@@ -1033,6 +1094,124 @@ def part_b_zeros(ctx, reals):
         n, len(zeros), len(signed))
 
 
+def erl_leaf(line):
+    return ('val', V('S', Fraction(line)), 'ERL')
+
+
+def linenum_leaf(n):
+    """a figure after ERL: same value as anywhere else; a Single when it does not fit an integer"""
+    return ('val', V('I' if n <= 32767 else 'S', Fraction(n)), str(n))
+
+
+def erl_expression(rng, line):
+    """ERL <op> figure [<op> figure ...] - operators do not end the tokeniser's line-number mode"""
+    toks = [erl_leaf(line)]
+    for _ in range(rng.choice([1, 1, 1, 2, 3])):
+        toks.append(('op', rng.choice(['=', '<>', '<', '>', '<=', '>=', '-', '+', '-', '+', '=', '*'])))
+        if rng.random() < 0.15:
+            toks.append(('op', '-'))
+        toks.append(linenum_leaf(rng.choice(LINENUMS)))
+    return toks
+
+
+def part_b_numtokens(ctx, reals):
+    rng = ctx.rng
+    partners = [('val', V('I', Fraction(2)), '2'), ('val', V('S', Fraction(1, 2)), '.5'),
+                ('val', V('D', Fraction(4)), '4#'), ('val', V('I', Fraction(-3)), 'A%')]
+    n = 0
+    # every number token class under every operator, both sides
+    for entry in NUMTOKS:
+        leaf = numtok_leaf(entry)
+        for k in BIN_SYMS:
+            for p in (partners if not ctx.quick else [rng.choice(partners)]):
+                for toks in ([leaf, ('op', k), p], [p, ('op', k), leaf]):
+                    check_value_case(ctx, reals[rng.random() < 0.25], toks, tokens_text(toks, rng), 'numtok')
+                    n += 1
+        for u in UN_SYMS:
+            toks = [('op', u), leaf]
+            check_value_case(ctx, reals[False], toks, tokens_text(toks, rng), 'numtok',
+                             deep=('direct' if rng.random() < 0.1 else False))
+            n += 1
+    # line-number tokens: figures after ERL, with ERL left at several values by the preceding history
+    real = reals[False]
+    for line in (0, 65535, 10, 32768, 40000, 65529):
+        real.set_erl(line)
+        extra = {'erl': line}
+        for fig in LINENUMS:
+            for k in BIN_SYMS:
+                toks = [erl_leaf(line), ('op', k), linenum_leaf(fig)]
+                if rng.random() < 0.2:
+                    toks = toks[:2] + ['('] + toks[2:] + [')']
+                got = check_value_case(ctx, real, toks, tokens_text(toks, rng), 'erl-figure', extra=extra,
+                                       deep=('direct' if rng.random() < 0.03 else False))
+                n += 1
+                if got is not None and got[0] == 'err':
+                    real.set_erl(line)      # (an error reported through the interpreter would move ERL)
+        for _ in range(40 if ctx.quick else 400):
+            toks = erl_expression(rng, line)
+            check_value_case(ctx, real, toks, tokens_text(toks, rng), 'erl-chain', extra=extra)
+            toks = [linenum_leaf(rng.choice(LINENUMS)), ('op', rng.choice(BIN_SYMS)), erl_leaf(line)]
+            check_value_case(ctx, real, toks, tokens_text(toks, rng), 'erl-right', extra=extra)
+            n += 2
+    # ON ERROR handlers dispatching on ERL in stored programs with high line numbers
+    for _ in range(6 if ctx.quick else 60):
+        erl_program(ctx, real, rng, rng.choice([100, 32767, 32768, 40000, 65000]))
+        n += 1
+    real.session.execute(b'NEW')
+    real.set_vars()
+    ctx.notes['number_token_cases'] = '%d cases: %d literal spellings, %d line-number figures after ERL' % (
+        n, len(NUMTOKS), len(LINENUMS))
+
+
+def erl_program(ctx, real, rng, line, exprs=None):
+    """10 ON ERROR GOTO 60000 / 20 GOTO <line> / <line> ERROR 5 / handler printing expressions in ERL and branching on them"""
+    want, texts = [], []
+    while len(texts) < 6:
+        if exprs is not None:
+            if len(texts) == len(exprs):
+                break
+            toks = exprs[len(texts)]
+        else:
+            toks = erl_expression(rng, line)
+        try:
+            v = pc_eval([t if t in ('(', ')') else (t[0], t[1]) for t in toks], False)
+        except (Skip, BasicErr):
+            if exprs is not None:
+                return None
+            continue
+        if v.v.denominator != 1 or abs(v.v) >= 10 ** 6:
+            if exprs is not None:
+                return None
+            continue
+        texts.append((toks, tokens_text(toks, rng), v))
+    lines = [b'10 ON ERROR GOTO 60000', b'20 GOTO %d' % line, b'%d ERROR 5' % line, b'%d PRINT "back":END' % (line + 1),
+             b'60000 PRINT ' + b';'.join(t[1].encode() for t in texts[:3])]
+    want = [b'%d' % int(t[2].v) for t in texts[:3]]
+    for i, (toks, text, v) in enumerate(texts[3:]):
+        lines.append(b'%d IF %s THEN PRINT "Y"; ELSE PRINT "N";' % (60001 + i, text.encode()))
+        want.append(b'Y' if v.v != 0 else b'N')
+    lines.append(b'60010 PRINT:RESUME NEXT')
+    # the IF results are printed without separators
+    want = want[:3] + ([b''.join(want[3:])] if want[3:] else []) + [b'back']
+    try:
+        real.session.execute(b'NEW')
+        for l in lines:
+            real.session.execute(l)
+        out = real.session.execute(b'RUN')
+    except Exception as e:  # noqa
+        out = b'<<EXC %s>>' % type(e).__name__.encode()
+    ctx.case(('B', 'erl-program', line, tuple(t[1] for t in texts)))
+    ctx.count('B:erl-program:%d' % line)
+    if out.split() != want:
+        case = {'part': 'B', 'erl_program': line,
+                'exprs': [[t if t in ('(', ')') else ([t[0], t[1].ty, str(t[1].v), t[2]] if t[0] == 'val' else list(t))
+                           for t in toks] for toks, _, _ in texts]}
+        msg = 'program %r printed %r, expected %r' % (b' / '.join(lines), out, b' '.join(want))
+        ctx.fail('erl-program:%d' % line, case, msg)
+        return msg
+    return None
+
+
 def call_type(real, fn, *args):
     try:
         r = fn(*args)
@@ -1062,7 +1241,14 @@ def replay(ctx, payload):
                 toks.append(('val', V(t[1], t[2].encode('latin-1') if t[1] == 'T' else Fraction(t[2])), ''))
             else:
                 toks.append(('op', t[1]))
+        if case.get('erl') is not None:
+            real.set_erl(case['erl'])
         check_value_case(sub, real, toks, case['text'], 'replay', deep=case.get('deep') or False)
+    elif case.get('erl_program') is not None:
+        exprs = [[t if t in ('(', ')') else (('val', V(t[1], Fraction(t[2])), t[3]) if t[0] == 'val' else ('op', t[1]))
+                  for t in e] for e in case['exprs']]
+        import random
+        return erl_program(sub, RealEval(False), random.Random(0), case['erl_program'], exprs)
     elif case.get('zero_program'):
         sub.rng = __import__('random').Random(payload.get('seed', 0))
         part_b_zeros(sub, {False: RealEval(False), True: RealEval(True)})
